@@ -1,3 +1,780 @@
 import Yaql.Model.Parser
+import Yaql.Props.C03Parse
 namespace Yaql.Props.C02
+open Yaql.Syntax Yaql.OpTable
+open Yaql.Props.C03Parse (run_append)
+
+/-! ## Tree layer: definitions -/
+
+def tok (k : TokKind) (v : TokVal := .none) : Token := ⟨k, v, 0⟩
+def tOp (sym : Str) : Token := tok (.op sym)
+def tLit (ch : Char) : Token := tok (.lit ch)
+
+/-- what a tree can reproduce of a token: kind and (for tokens that carry one) value; not the position -/
+def norm (t : Token) : Token :=
+  match t.kind with
+  | .op _ | .lit _ | .indexer | .map | .mapping => ⟨t.kind, .none, 0⟩
+  | _ => ⟨t.kind, t.val, 0⟩
+
+def isPrefix (c : Cfg) (sym : Str) : Bool :=
+  match c.opRec sym with
+  | some o => decide (o.up > 0)
+  | none => false
+
+/-- precedences of the operator rules still open at the right edge of a tree (outermost first) -/
+def rsr (c : Cfg) : Ast → List Prec
+  | .binary sym _ _ r =>
+      (match c.opRec sym with | some o => c.tokPrec o | none => noPrec) :: rsr c r
+  | .unary sym _ x =>
+      match c.opRec sym with
+      | some o => if o.up > 0 then c.unaryPrec o :: rsr c x else []
+      | none => []
+  | _ => []
+
+/-- token precedences of the postfix operations applied along the left edge of a tree (outermost first) -/
+def lsp (c : Cfg) : Ast → List Prec
+  | .binary sym _ l _ =>
+      (match c.opRec sym with | some o => c.tokPrec o | none => noPrec) :: lsp c l
+  | .unary sym _ x =>
+      match c.opRec sym with
+      | some o => if o.up > 0 then [] else c.tokPrec o :: lsp c x
+      | none => []
+  | .index b _ => c.indexerPrec :: lsp c b
+  | .call f _ => noPrec :: lsp c f
+  | _ => []
+
+def isValue : Ast → Bool
+  | .noValue => false
+  | .mappingRule _ _ => false
+  | _ => true
+
+/-- the `args` grammar as a condition on the slot list, read from a slot start with `budget`/`named`
+as in `Frame.args` -/
+def slotsOK : Nat → Bool → List Ast → Bool
+  | _, _, [] => false
+  | b, nm, .noValue :: rest => !nm && !rest.isEmpty && slotsOK (b - 1) false rest
+  | b, nm, .mappingRule _ _ :: rest => (nm || decide (b ≥ 1)) && (rest.isEmpty || slotsOK 0 true rest)
+  | _, nm, _ :: rest => !nm && (rest.isEmpty || slotsOK 2 false rest)
+
+def argsOK (as : List Ast) : Bool := as.isEmpty || slotsOK 1 false as
+
+mutual
+def WFn (c : Cfg) : Ast → Prop
+  | .const k _ => k = .quoted ∨ k = .number ∨ k = .true_ ∨ k = .false_ ∨ k = .null_
+  | .keywordConst _ => True
+  | .getContextValue _ => True
+  | .binary sym al l r =>
+      ∃ o, c.opRec sym = some o ∧ o.bp ≠ 0 ∧ al = o.alias ∧
+        isValue l = true ∧ isValue r = true ∧ WFn c l ∧ WFn c r ∧
+        (∀ ρ ∈ rsr c l, reduceOver ρ (c.tokPrec o) = true) ∧
+        (∀ p ∈ lsp c r, reduceOver (c.tokPrec o) p = false)
+  | .unary sym al x =>
+      ∃ o, c.opRec sym = some o ∧ o.up ≠ 0 ∧ al = o.alias ∧ isValue x = true ∧ WFn c x ∧
+        (if o.up > 0 then ∀ p ∈ lsp c x, reduceOver (c.unaryPrec o) p = false
+         else ∀ ρ ∈ rsr c x, reduceOver ρ (c.tokPrec o) = true)
+  | .index b as =>
+      isValue b = true ∧ WFn c b ∧ (∀ ρ ∈ rsr c b, reduceOver ρ c.indexerPrec = true) ∧
+        argsOK as = true ∧ WFL c as
+  | .list as => argsOK as = true ∧ WFL c as
+  | .map as => argsOK as = true ∧ WFL c as
+  | .func _ as => argsOK as = true ∧ WFL c as
+  | .call f as =>
+      c.delegates = true ∧ isValue f = true ∧ WFn c f ∧ (∀ ρ ∈ rsr c f, reduceOver ρ noPrec = true) ∧
+        argsOK as = true ∧ WFL c as
+  | .wrap e => isValue e = true ∧ WFn c e
+  | .mappingRule s d => isValue s = true ∧ isValue d = true ∧ WFn c s ∧ WFn c d
+  | .noValue => True
+def WFL (c : Cfg) : List Ast → Prop
+  | [] => True
+  | a :: as => WFn c a ∧ WFL c as
+end
+
+/-- **the precedence-correctness predicate**: a value tree in which every operator's operands are
+what the operator table (through ply's levels) dictates -/
+def WF (c : Cfg) (t : Ast) : Prop := isValue t = true ∧ WFn c t
+
+mutual
+def yield (c : Cfg) : Ast → List Token
+  | .const k v => [tok k v]
+  | .keywordConst v => [tok .keyword v]
+  | .getContextValue v => [tok .dollar v]
+  | .binary sym _ l r => yield c l ++ tOp sym :: yield c r
+  | .unary sym _ x => if isPrefix c sym then tOp sym :: yield c x else yield c x ++ [tOp sym]
+  | .index b as => yield c b ++ tok .indexer :: (yieldL c as ++ [tLit ']'])
+  | .list as => tok .indexer :: (yieldL c as ++ [tLit ']'])
+  | .map as => tok .map :: (yieldL c as ++ [tLit '}'])
+  | .func n as => tok .func n :: (yieldL c as ++ [tLit ')'])
+  | .call f as => yield c f ++ tLit '(' :: (yieldL c as ++ [tLit ')'])
+  | .wrap e => tLit '(' :: (yield c e ++ [tLit ')'])
+  | .mappingRule s d => yield c s ++ tok .mapping :: yield c d
+  | .noValue => []
+def yieldL (c : Cfg) : List Ast → List Token
+  | [] => []
+  | a :: as => yield c a ++ (match as with | [] => [] | _ :: _ => tLit ',' :: yieldL c as)
+end
+
+
+/-! ## Invariants of the machine (soundness direction) -/
+
+def ctxOf (c : Cfg) : List Frame → Option Prec
+  | .binop _ _ o :: _ => some (c.tokPrec o)
+  | .pre _ o :: _ => some (c.unaryPrec o)
+  | _ => none
+
+/-- a postfix token of precedence `p` is shifted (not reduced over) in context `ctx` -/
+def shifts (ctx : Option Prec) (p : Prec) : Prop := ∀ ρ, ctx = some ρ → reduceOver ρ p = false
+
+/-- state of the slot machine after the completed slots `acc` (each followed by a comma) -/
+def slotsPre : Nat → Bool → List Ast → Option (Nat × Bool)
+  | b, nm, [] => some (b, nm)
+  | b, nm, .noValue :: rest => if nm then none else slotsPre (b - 1) false rest
+  | b, nm, .mappingRule _ _ :: rest => if nm || decide (b ≥ 1) then slotsPre 0 true rest else none
+  | _, nm, _ :: rest => if nm then none else slotsPre 2 false rest
+
+def opener (c : Cfg) : ArgKind → List Token
+  | .func n => [tok .func n]
+  | .index b => yield c b ++ [tok .indexer]
+  | .list => [tok .indexer]
+  | .map => [tok .map]
+  | .call f => yield c f ++ [tLit '(']
+
+def yieldSlots (c : Cfg) : List Ast → List Token
+  | [] => []
+  | a :: as => yield c a ++ tLit ',' :: yieldSlots c as
+
+def yieldFrame (c : Cfg) : Frame → List Token
+  | .paren => [tLit '(']
+  | .binop l sym _ => yield c l ++ [tOp sym]
+  | .pre sym _ => [tOp sym]
+  | .amb l sym _ => yield c l ++ [tOp sym]
+  | .args k acc _ _ _ => opener c k ++ yieldSlots c acc
+  | .named src => yield c src ++ [tok .mapping]
+
+def yieldStack (c : Cfg) : List Frame → List Token
+  | [] => []
+  | f :: S => yieldStack c S ++ yieldFrame c f
+
+def yieldSt (c : Cfg) (st : St) : List Token :=
+  yieldStack c st.stack ++ (match st.cur with | none => [] | some v => yield c v)
+
+def kindOK (c : Cfg) (S : List Frame) : ArgKind → Prop
+  | .index b => isValue b = true ∧ WFn c b ∧ (∀ ρ ∈ rsr c b, reduceOver ρ c.indexerPrec = true) ∧
+      (∀ p ∈ c.indexerPrec :: lsp c b, shifts (ctxOf c S) p)
+  | .call f => c.delegates = true ∧ isValue f = true ∧ WFn c f ∧ (∀ ρ ∈ rsr c f, reduceOver ρ noPrec = true) ∧
+      (∀ p ∈ noPrec :: lsp c f, shifts (ctxOf c S) p)
+  | _ => True
+
+def StackOK (c : Cfg) : List Frame → Prop
+  | [] => True
+  | .paren :: S => StackOK c S
+  | .binop l sym o :: S =>
+      c.opRec sym = some o ∧ o.bp ≠ 0 ∧ isValue l = true ∧ WFn c l ∧
+      (∀ ρ ∈ rsr c l, reduceOver ρ (c.tokPrec o) = true) ∧
+      (∀ p ∈ c.tokPrec o :: lsp c l, shifts (ctxOf c S) p) ∧ StackOK c S
+  | .pre sym o :: S => c.opRec sym = some o ∧ o.up > 0 ∧ StackOK c S
+  | .amb _ _ _ :: _ => False
+  | .args k acc b nm fresh :: S =>
+      kindOK c S k ∧ WFL c acc ∧ slotsPre 1 false acc = some (b, nm) ∧ (fresh = true ↔ acc = []) ∧ StackOK c S
+  | .named src :: S =>
+      isValue src = true ∧ WFn c src ∧
+      (match S with | .args _ _ b nm _ :: _ => nm = true ∨ b ≥ 1 | _ => False) ∧ StackOK c S
+
+def CurOK (c : Cfg) (S : List Frame) (v : Ast) : Prop :=
+  isValue v = true ∧ WFn c v ∧ rsr c v = [] ∧ ∀ p ∈ lsp c v, shifts (ctxOf c S) p
+
+def StOK (c : Cfg) (st : St) : Prop :=
+  match st.cur, st.stack with
+  | none, .amb l sym o :: S =>
+      c.opRec sym = some o ∧ o.bp ≠ 0 ∧ o.up < 0 ∧ isValue l = true ∧ WFn c l ∧
+      (∀ ρ ∈ rsr c l, reduceOver ρ (c.tokPrec o) = true) ∧
+      (∀ p ∈ c.tokPrec o :: lsp c l, shifts (ctxOf c S) p) ∧ StackOK c S
+  | none, S => StackOK c S
+  | some v, S => StackOK c S ∧ CurOK c S v
+
+
+/-! ### `reduceWhile` -/
+
+def redP (p : Option Prec) (ρ : Prec) : Prop :=
+  match p with
+  | none => True
+  | some p => reduceOver ρ p = true
+
+/-- where `reduceWhile` stops -/
+def stopP (c : Cfg) (p : Option Prec) (S : List Frame) : Prop :=
+  match p with
+  | some p => shifts (ctxOf c S) p
+  | none => ctxOf c S = none
+
+theorem shifts_none (p : Prec) : shifts none p := by intro ρ h; cases h
+
+theorem rsr_binary {c : Cfg} {sym al l r o} (h : c.opRec sym = some o) :
+    rsr c (.binary sym al l r) = c.tokPrec o :: rsr c r := by simp [rsr, h]
+theorem lsp_binary {c : Cfg} {sym al l r o} (h : c.opRec sym = some o) :
+    lsp c (.binary sym al l r) = c.tokPrec o :: lsp c l := by simp [lsp, h]
+theorem rsr_prefix {c : Cfg} {sym al x o} (h : c.opRec sym = some o) (hp : o.up > 0) :
+    rsr c (.unary sym al x) = c.unaryPrec o :: rsr c x := by simp [rsr, h, hp]
+theorem lsp_prefix {c : Cfg} {sym al x o} (h : c.opRec sym = some o) (hp : o.up > 0) :
+    lsp c (.unary sym al x) = [] := by simp [lsp, h, hp]
+theorem rsr_suffix {c : Cfg} {sym al x o} (h : c.opRec sym = some o) (hp : ¬ o.up > 0) :
+    rsr c (.unary sym al x) = [] := by simp [rsr, h, hp]
+theorem lsp_suffix {c : Cfg} {sym al x o} (h : c.opRec sym = some o) (hp : ¬ o.up > 0) :
+    lsp c (.unary sym al x) = c.tokPrec o :: lsp c x := by simp [lsp, h, hp]
+theorem isPrefix_of {c : Cfg} {sym o} (h : c.opRec sym = some o) : isPrefix c sym = decide (o.up > 0) := by
+  simp [isPrefix, h]
+
+theorem reduceWhile_spec (c : Cfg) (p : Option Prec) :
+    ∀ (S : List Frame) (v : Ast), StackOK c S → isValue v = true → WFn c v →
+      (∀ q ∈ lsp c v, shifts (ctxOf c S) q) → (∀ ρ ∈ rsr c v, redP p ρ) →
+      ∀ S' v', reduceWhile c p S v = (S', v') →
+        StackOK c S' ∧ isValue v' = true ∧ WFn c v' ∧ (∀ q ∈ lsp c v', shifts (ctxOf c S') q) ∧
+        (∀ ρ ∈ rsr c v', redP p ρ) ∧
+        stopP c p S' ∧
+        yieldStack c S' ++ yield c v' = yieldStack c S ++ yield c v
+  | [], v, hS, hv, hw, hl, hr, S', v', h => by
+    simp [reduceWhile] at h
+    obtain ⟨rfl, rfl⟩ := h
+    refine ⟨hS, hv, hw, hl, hr, ?_, rfl⟩
+    cases p <;> simp [stopP, ctxOf, shifts_none]
+  | .paren :: S, v, hS, hv, hw, hl, hr, S', v', h => by
+    simp [reduceWhile] at h
+    obtain ⟨rfl, rfl⟩ := h
+    refine ⟨hS, hv, hw, hl, hr, ?_, rfl⟩
+    cases p <;> simp [stopP, ctxOf, shifts_none]
+  | .args k acc b nm fr :: S, v, hS, hv, hw, hl, hr, S', v', h => by
+    simp [reduceWhile] at h
+    obtain ⟨rfl, rfl⟩ := h
+    refine ⟨hS, hv, hw, hl, hr, ?_, rfl⟩
+    cases p <;> simp [stopP, ctxOf, shifts_none]
+  | .named src :: S, v, hS, hv, hw, hl, hr, S', v', h => by
+    simp [reduceWhile] at h
+    obtain ⟨rfl, rfl⟩ := h
+    refine ⟨hS, hv, hw, hl, hr, ?_, rfl⟩
+    cases p <;> simp [stopP, ctxOf, shifts_none]
+  | .amb l sym o :: S, v, hS, _, _, _, _, _, _, _ => by simp [StackOK] at hS
+  | .binop l sym o :: S, v, hS, hv, hw, hl, hr, S', v', h => by
+    obtain ⟨ho, hbp, hlv, hlw, hlr, hls, hS'⟩ := hS
+    have key : redP p (c.tokPrec o) → reduceWhile c p S (.binary sym o.alias l v) = (S', v') →
+        StackOK c S' ∧ isValue v' = true ∧ WFn c v' ∧ (∀ q ∈ lsp c v', shifts (ctxOf c S') q) ∧
+        (∀ ρ ∈ rsr c v', redP p ρ) ∧
+        stopP c p S' ∧
+        yieldStack c S' ++ yield c v' = yieldStack c (.binop l sym o :: S) ++ yield c v := by
+      intro hc h
+      refine (reduceWhile_spec c p S (.binary sym o.alias l v) hS' (by simp [isValue]) ?_ ?_ ?_ S' v' h).imp_right
+        (fun ⟨a1, a2, a3, a4, a5, a6⟩ => ⟨a1, a2, a3, a4, a5, ?_⟩)
+      · simp only [WFn]
+        refine ⟨o, ho, hbp, rfl, hlv, hv, hlw, hw, hlr, ?_⟩
+        intro q hq
+        exact hl q hq _ (by simp [ctxOf])
+      · rw [lsp_binary ho]; exact hls
+      · rw [rsr_binary ho]
+        intro ρ hρ
+        rcases List.mem_cons.mp hρ with rfl | hρ
+        · exact hc
+        · exact hr ρ hρ
+      · rw [a6]; simp [yieldStack, yieldFrame, yield]
+    cases p with
+    | none => simp only [reduceWhile, ↓reduceIte] at h; exact key trivial h
+    | some p' =>
+      simp only [reduceWhile] at h
+      by_cases hc : reduceOver (c.tokPrec o) p' = true
+      · simp only [hc, ↓reduceIte] at h; exact key hc h
+      · simp only [hc] at h
+        simp at h
+        obtain ⟨rfl, rfl⟩ := h
+        refine ⟨⟨ho, hbp, hlv, hlw, hlr, hls, hS'⟩, hv, hw, hl, hr, ?_, rfl⟩
+        intro ρ hρ
+        simp [ctxOf] at hρ
+        subst hρ
+        simpa using hc
+  | .pre sym o :: S, v, hS, hv, hw, hl, hr, S', v', h => by
+    obtain ⟨ho, hup, hS'⟩ := hS
+    have key : redP p (c.unaryPrec o) → reduceWhile c p S (.unary sym o.alias v) = (S', v') →
+        StackOK c S' ∧ isValue v' = true ∧ WFn c v' ∧ (∀ q ∈ lsp c v', shifts (ctxOf c S') q) ∧
+        (∀ ρ ∈ rsr c v', redP p ρ) ∧
+        stopP c p S' ∧
+        yieldStack c S' ++ yield c v' = yieldStack c (.pre sym o :: S) ++ yield c v := by
+      intro hc h
+      refine (reduceWhile_spec c p S (.unary sym o.alias v) hS' (by simp [isValue]) ?_ ?_ ?_ S' v' h).imp_right
+        (fun ⟨a1, a2, a3, a4, a5, a6⟩ => ⟨a1, a2, a3, a4, a5, ?_⟩)
+      · simp only [WFn]
+        refine ⟨o, ho, by omega, rfl, hv, hw, ?_⟩
+        simp only [hup, ↓reduceIte]
+        intro q hq
+        exact hl q hq _ (by simp [ctxOf])
+      · rw [lsp_prefix ho hup]; simp
+      · rw [rsr_prefix ho hup]
+        intro ρ hρ
+        rcases List.mem_cons.mp hρ with rfl | hρ
+        · exact hc
+        · exact hr ρ hρ
+      · rw [a6]; simp [yieldStack, yieldFrame, yield, isPrefix_of ho, hup]
+    cases p with
+    | none => simp only [reduceWhile, ↓reduceIte] at h; exact key trivial h
+    | some p' =>
+      simp only [reduceWhile] at h
+      by_cases hc : reduceOver (c.unaryPrec o) p' = true
+      · simp only [hc, ↓reduceIte] at h; exact key hc h
+      · simp only [hc] at h
+        simp at h
+        obtain ⟨rfl, rfl⟩ := h
+        refine ⟨⟨ho, hup, hS'⟩, hv, hw, hl, hr, ?_, rfl⟩
+        intro ρ hρ
+        simp [ctxOf] at hρ
+        subst hρ
+        simpa using hc
+
+
+/-! ### slot bookkeeping -/
+
+theorem WFL_append (c : Cfg) : ∀ (a b : List Ast), WFL c (a ++ b) ↔ WFL c a ∧ WFL c b
+  | [], b => by simp [WFL]
+  | x :: a, b => by simp [WFL, WFL_append c a b, and_assoc]
+
+theorem slotsPre_value {v : Ast} (hv : isValue v = true) (b : Nat) (nm : Bool) (rest : List Ast) :
+    slotsPre b nm (v :: rest) = if nm then none else slotsPre 2 false rest := by
+  cases v <;> simp [isValue] at hv <;> simp [slotsPre]
+
+theorem slotsOK_value {v : Ast} (hv : isValue v = true) (b : Nat) (nm : Bool) (rest : List Ast) :
+    slotsOK b nm (v :: rest) = (!nm && (rest.isEmpty || slotsOK 2 false rest)) := by
+  cases v <;> simp [isValue] at hv <;> simp [slotsOK]
+
+theorem slotsPre_append : ∀ (a r : List Ast) (b : Nat) (nm : Bool),
+    slotsPre b nm (a ++ r) = (match slotsPre b nm a with | some (b', nm') => slotsPre b' nm' r | none => none)
+  | [], r, b, nm => by simp [slotsPre]
+  | x :: a, r, b, nm => by
+    cases x <;> simp only [List.cons_append, slotsPre] <;> (try split) <;>
+      first | exact slotsPre_append a r _ _ | rfl
+
+theorem slotsOK_append : ∀ (a r : List Ast) (b : Nat) (nm : Bool), r ≠ [] →
+    slotsOK b nm (a ++ r) = (match slotsPre b nm a with | some (b', nm') => slotsOK b' nm' r | none => false)
+  | [], r, b, nm, _ => by simp [slotsPre]
+  | x :: a, r, b, nm, hr => by
+    have ih := fun b nm => slotsOK_append a r b nm hr
+    have hne : (a ++ r).isEmpty = false := by cases a <;> cases r <;> simp_all
+    cases x with
+    | mappingRule sr ds =>
+      simp only [List.cons_append, slotsOK, slotsPre, hne, ih]
+      by_cases hc : (nm || decide (b ≥ 1)) = true
+      · simp only [hc, ↓reduceIte]; simp
+      · simp only [hc]; simp
+    | _ => simp only [List.cons_append, slotsOK, slotsPre, hne, ih] <;> cases nm <;> simp
+
+theorem yieldSlots_append (c : Cfg) : ∀ (a b : List Ast), yieldSlots c (a ++ b) = yieldSlots c a ++ yieldSlots c b
+  | [], b => by simp [yieldSlots]
+  | x :: a, b => by simp [yieldSlots, yieldSlots_append c a b]
+
+theorem yieldL_snoc (c : Cfg) : ∀ (a : List Ast) (v : Ast), yieldL c (a ++ [v]) = yieldSlots c a ++ yield c v
+  | [], v => by simp [yieldL, yieldSlots]
+  | x :: a, v => by
+    have ih := yieldL_snoc c a v
+    cases a with
+    | nil => simp [yieldL, yieldSlots]
+    | cons y a => simp only [List.cons_append, yieldL, yieldSlots] at ih ⊢; simp [ih]
+
+
+/-! ### one step preserves the invariant -/
+
+def StOKn (c : Cfg) (st : St) : Prop :=
+  match st.cur with
+  | none => StackOK c st.stack
+  | some v => StackOK c st.stack ∧ CurOK c st.stack v
+
+theorem StOKn_imp {c : Cfg} {st : St} (h : StOKn c st) : StOK c st := by
+  obtain ⟨S, cur⟩ := st
+  cases cur with
+  | some v => exact h
+  | none =>
+    cases S with
+    | nil => exact h
+    | cons f S => cases f <;> first | exact h | (simp [StOKn, StackOK] at h)
+
+theorem build_ok {c : Cfg} {S : List Frame} {k : ArgKind} (hk : kindOK c S k) (as : List Ast)
+    (ha : argsOK as = true) (hw : WFL c as) :
+    CurOK c S (k.build as) ∧ yield c (k.build as) = opener c k ++ yieldL c as ++ [tLit k.closer] := by
+  cases k with
+  | func n => simp [ArgKind.build, CurOK, isValue, WFn, rsr, lsp, ha, hw, yield, opener, ArgKind.closer]
+  | list => simp [ArgKind.build, CurOK, isValue, WFn, rsr, lsp, ha, hw, yield, opener, ArgKind.closer]
+  | map => simp [ArgKind.build, CurOK, isValue, WFn, rsr, lsp, ha, hw, yield, opener, ArgKind.closer]
+  | index b =>
+    obtain ⟨h1, h2, h3, h4⟩ := hk
+    refine ⟨⟨by simp [ArgKind.build, isValue], ?_, by simp [ArgKind.build, rsr], ?_⟩, ?_⟩
+    · simp only [ArgKind.build, WFn]; exact ⟨h1, h2, h3, ha, hw⟩
+    · simpa [ArgKind.build, lsp] using h4
+    · simp [ArgKind.build, yield, opener, ArgKind.closer]
+  | call f =>
+    obtain ⟨h0, h1, h2, h3, h4⟩ := hk
+    refine ⟨⟨by simp [ArgKind.build, isValue], ?_, by simp [ArgKind.build, rsr], ?_⟩, ?_⟩
+    · simp only [ArgKind.build, WFn]; exact ⟨h0, h1, h2, h3, ha, hw⟩
+    · simpa [ArgKind.build, lsp] using h4
+    · simp [ArgKind.build, yield, opener, ArgKind.closer]
+
+theorem norm_lit {t : Token} {ch : Char} (h : t.kind = .lit ch) : norm t = tLit ch := by
+  simp [norm, h, tLit, tok]
+
+theorem newArgs_ok {c : Cfg} {S : List Frame} {k : ArgKind} (hk : kindOK c S k) (hS : StackOK c S) :
+    StackOK c (newArgs k :: S) := by
+  simp [newArgs, StackOK, hk, hS, WFL, slotsPre]
+
+theorem stepOperand_inv {c : Cfg} {S : List Frame} {t : Token} {st' : St}
+    (hS : StackOK c S) (h : stepOperand c S t = .ok st') :
+    StOKn c st' ∧ yieldSt c st' = yieldStack c S ++ [norm t] := by
+  unfold stepOperand at h
+  cases hk : t.kind with
+  | quoted | number | true_ | false_ | null_ =>
+    simp only [hk] at h
+    injection h with h; subst h
+    simp [StOKn, CurOK, hS, isValue, WFn, rsr, lsp, yieldSt, yield, norm, hk, tok]
+  | keyword | dollar =>
+    simp only [hk] at h
+    injection h with h; subst h
+    simp [StOKn, CurOK, hS, isValue, WFn, rsr, lsp, yieldSt, yield, norm, hk, tok]
+  | func | indexer | map =>
+    simp only [hk] at h
+    injection h with h; subst h
+    refine ⟨newArgs_ok (by simp [kindOK]) hS, ?_⟩
+    simp [yieldSt, yieldStack, yieldFrame, newArgs, opener, yieldSlots, norm, hk, tok]
+  | mapping => simp [hk, errAt] at h
+  | op sym =>
+    simp only [hk] at h
+    split at h
+    · rename_i o ho
+      split at h
+      · rename_i hup
+        injection h with h; subst h
+        refine ⟨⟨ho, hup, hS⟩, ?_⟩
+        simp [yieldSt, yieldStack, yieldFrame, norm, hk, tOp, tok]
+      · simp [errAt] at h
+    · simp [errAt] at h
+  | lit ch =>
+    simp only [hk] at h
+    split at h
+    · rename_i hch
+      injection h with h; subst h
+      have : ch = '(' := by simpa using hch
+      subst this
+      exact ⟨hS, by simp [yieldSt, yieldStack, yieldFrame, norm_lit hk]⟩
+    · split at h
+      · rename_i k acc b nm fr S'
+        obtain ⟨hk', hwl, hpre, hfr, hS'⟩ := hS
+        split at h
+        · rename_i hcomma
+          have : ch = ',' := by simpa using hcomma
+          subst this
+          split at h
+          · simp [errAt] at h
+          · rename_i hnm
+            injection h with h; subst h
+            have hnm' : nm = false := by simpa using hnm
+            subst hnm'
+            refine ⟨⟨hk', ?_, ?_, by simp, hS'⟩, ?_⟩
+            · exact (WFL_append c acc [.noValue]).mpr ⟨hwl, by simp [WFL, WFn]⟩
+            · rw [slotsPre_append, hpre]; simp [slotsPre]
+            · simp [yieldSt, yieldStack, yieldFrame, yieldSlots_append, yieldSlots, yield, norm_lit hk]
+        · split at h
+          · rename_i hcl
+            injection h with h; subst h
+            have hcl' : fr = true ∧ ch = k.closer := by simpa using hcl
+            obtain ⟨hfr', hch⟩ := hcl'
+            have hacc : acc = [] := hfr.mp hfr'
+            subst hacc
+            obtain ⟨h1, h2⟩ := build_ok hk' [] (by simp [argsOK]) (by simp [WFL])
+            refine ⟨⟨hS', h1⟩, ?_⟩
+            simp [yieldSt, yieldStack, yieldFrame, yieldSlots, h2, yieldL, norm_lit hk, hch]
+          · simp [errAt] at h
+      · simp [errAt] at h
+
+
+theorem close_inv {c : Cfg} {S : List Frame} {v : Ast} {t : Token} {st' : St}
+    (hS : StackOK c S) (hv : isValue v = true) (hw : WFn c v) (h : close S v t = .ok st') :
+    StOKn c st' ∧ yieldSt c st' = yieldStack c S ++ yield c v ++ [norm t] := by
+  unfold close at h
+  split at h
+  · -- paren
+    rename_i S'
+    split at h
+    · rename_i ch hk
+      split at h
+      · rename_i hch
+        injection h with h; subst h
+        have : ch = ')' := by simpa using hch
+        subst this
+        refine ⟨⟨hS, by simp [isValue], by simp [WFn, hv, hw], by simp [rsr], by simp [lsp]⟩, ?_⟩
+        simp [yieldSt, yieldStack, yieldFrame, yield, norm_lit hk]
+      · simp [errAt] at h
+    · simp [errAt] at h
+  · -- args
+    rename_i k acc b nm fr S'
+    obtain ⟨hk', hwl, hpre, hfr, hS'⟩ := hS
+    split at h
+    · rename_i ch hk
+      split at h
+      · simp [errAt] at h
+      · rename_i hnm
+        have hnm' : nm = false := by simpa using hnm
+        subst hnm'
+        split at h
+        · rename_i hcomma
+          injection h with h; subst h
+          have : ch = ',' := by simpa using hcomma
+          subst this
+          refine ⟨⟨hk', ?_, ?_, by simp, hS'⟩, ?_⟩
+          · exact (WFL_append c acc [v]).mpr ⟨hwl, by simp [WFL, hw]⟩
+          · rw [slotsPre_append, hpre]; simp [slotsPre_value hv, slotsPre]
+          · simp [yieldSt, yieldStack, yieldFrame, yieldSlots_append, yieldSlots, norm_lit hk]
+        · split at h
+          · rename_i hcl
+            injection h with h; subst h
+            have hch : ch = k.closer := by simpa using hcl
+            have hargs : argsOK (acc ++ [v]) = true := by
+              simp only [argsOK]
+              rw [slotsOK_append acc [v] 1 false (by simp), hpre]
+              simp [slotsOK_value hv]
+            obtain ⟨h1, h2⟩ := build_ok hk' (acc ++ [v]) hargs
+              ((WFL_append c acc [v]).mpr ⟨hwl, by simp [WFL, hw]⟩)
+            refine ⟨⟨hS', h1⟩, ?_⟩
+            simp [yieldSt, yieldStack, yieldFrame, h2, yieldL_snoc, norm_lit hk, hch]
+          · simp [errAt] at h
+    · rename_i hk
+      split at h
+      · rename_i hcond
+        injection h with h; subst h
+        refine ⟨⟨hv, hw, ?_, hk', hwl, hpre, hfr, hS'⟩, ?_⟩
+        · simpa [Bool.or_eq_true] using hcond
+        · simp [yieldSt, yieldStack, yieldFrame, norm, hk, tok]
+      · simp [errAt] at h
+    · simp [errAt] at h
+  · -- named
+    rename_i src k acc b nm fr S'
+    obtain ⟨hsv, hsw, hallow, hk', hwl, hpre, hfr, hS'⟩ := hS
+    have hmr : WFL c (acc ++ [.mappingRule src v]) :=
+      (WFL_append c acc [.mappingRule src v]).mpr ⟨hwl, by simp [WFL, WFn, hsv, hv, hsw, hw]⟩
+    have hallow' : (nm || decide (b ≥ 1)) = true := by
+      rcases hallow with h | h <;> simp [h]
+    split at h
+    · rename_i ch hk
+      split at h
+      · rename_i hcomma
+        injection h with h; subst h
+        have : ch = ',' := by simpa using hcomma
+        subst this
+        refine ⟨⟨hk', hmr, ?_, by simp, hS'⟩, ?_⟩
+        · rw [slotsPre_append, hpre]; simp only [slotsPre, hallow', ↓reduceIte]
+        · simp [yieldSt, yieldStack, yieldFrame, yieldSlots_append, yieldSlots, yield, norm_lit hk]
+      · split at h
+        · rename_i hcl
+          injection h with h; subst h
+          have hch : ch = k.closer := by simpa using hcl
+          have hargs : argsOK (acc ++ [.mappingRule src v]) = true := by
+            simp only [argsOK]
+            rw [slotsOK_append acc [.mappingRule src v] 1 false (by simp), hpre]
+            simp only [slotsOK, hallow']; simp
+          obtain ⟨h1, h2⟩ := build_ok hk' (acc ++ [.mappingRule src v]) hargs hmr
+          refine ⟨⟨hS', h1⟩, ?_⟩
+          simp [yieldSt, yieldStack, yieldFrame, h2, yieldL_snoc, yield, norm_lit hk, hch]
+        · simp [errAt] at h
+    · simp [errAt] at h
+  · simp [errAt] at h
+
+
+/-- what `classify` says about the token -/
+theorem classify_spec {c : Cfg} {t : Token} {post : Post} {p : Prec} (h : classify c t = some (post, p)) :
+    match post with
+    | .bin sym o => t.kind = .op sym ∧ c.opRec sym = some o ∧ o.bp ≠ 0 ∧ ¬ o.up < 0 ∧ p = c.tokPrec o
+    | .amb sym o => t.kind = .op sym ∧ c.opRec sym = some o ∧ o.bp ≠ 0 ∧ o.up < 0 ∧ p = c.tokPrec o
+    | .suf sym o => t.kind = .op sym ∧ c.opRec sym = some o ∧ o.bp = 0 ∧ o.up < 0 ∧ p = c.tokPrec o
+    | .idx => t.kind = .indexer ∧ p = c.indexerPrec
+    | .call => t.kind = .lit '(' ∧ c.delegates = true ∧ p = noPrec := by
+  unfold classify at h
+  split at h
+  · rename_i sym hk
+    split at h
+    · rename_i o ho
+      split at h
+      · rename_i hbp
+        split at h
+        · rename_i hup
+          injection h with h; injection h with h1 h2; subst h1 h2
+          exact ⟨hk, ho, hbp, hup, rfl⟩
+        · rename_i hup
+          injection h with h; injection h with h1 h2; subst h1 h2
+          exact ⟨hk, ho, hbp, hup, rfl⟩
+      · rename_i hbp
+        split at h
+        · rename_i hup
+          injection h with h; injection h with h1 h2; subst h1 h2
+          exact ⟨hk, ho, by simpa using hbp, hup, rfl⟩
+        · simp at h
+    · simp at h
+  · rename_i hk
+    injection h with h; injection h with h1 h2; subst h1 h2
+    exact ⟨hk, rfl⟩
+  · rename_i ch hk
+    split at h
+    · rename_i hc
+      injection h with h; injection h with h1 h2; subst h1 h2
+      have : ch = '(' ∧ c.delegates = true := by simpa using hc
+      exact ⟨by rw [hk, this.1], this.2, rfl⟩
+    · simp at h
+  · simp at h
+
+theorem stepAfter_inv {c : Cfg} {S : List Frame} {v : Ast} {t : Token} {st' : St}
+    (hS : StackOK c S) (hc : CurOK c S v) (h : stepAfter c S v t = .ok st') :
+    StOK c st' ∧ yieldSt c st' = yieldStack c S ++ yield c v ++ [norm t] := by
+  obtain ⟨hv, hw, hr, hl⟩ := hc
+  unfold stepAfter at h
+  split at h
+  · rename_i post p hcl
+    have hcs := classify_spec hcl
+    cases hrw : reduceWhile c (some p) S v with
+    | mk S' v' =>
+    obtain ⟨a1, a2, a3, a4, a5, a6, a7⟩ :=
+      reduceWhile_spec c (some p) S v hS hv hw hl (by rw [hr]; simp) S' v' hrw
+    simp only [hrw] at h
+    have hr' : ∀ ρ ∈ rsr c v', reduceOver ρ p = true := a5
+    have hsh : shifts (ctxOf c S') p := a6
+    cases post with
+    | bin sym o =>
+      obtain ⟨hk, ho, hbp, hup, rfl⟩ := hcs
+      injection h with h; subst h
+      refine ⟨StOKn_imp (c := c) (st := ⟨_, none⟩) ⟨ho, hbp, a2, a3, hr', ?_, a1⟩, ?_⟩
+      · intro q hq; rcases List.mem_cons.mp hq with rfl | hq
+        · exact hsh
+        · exact a4 q hq
+      · simp [yieldSt, yieldStack, yieldFrame, norm, hk, tOp, tok, ← a7]
+    | amb sym o =>
+      obtain ⟨hk, ho, hbp, hup, rfl⟩ := hcs
+      injection h with h; subst h
+      refine ⟨⟨ho, hbp, hup, a2, a3, hr', ?_, a1⟩, ?_⟩
+      · intro q hq; rcases List.mem_cons.mp hq with rfl | hq
+        · exact hsh
+        · exact a4 q hq
+      · simp [yieldSt, yieldStack, yieldFrame, norm, hk, tOp, tok, ← a7]
+    | suf sym o =>
+      obtain ⟨hk, ho, hbp, hup, rfl⟩ := hcs
+      injection h with h; subst h
+      have hnp : ¬ o.up > 0 := by omega
+      refine ⟨⟨a1, by simp [isValue], ?_, rsr_suffix ho hnp, ?_⟩, ?_⟩
+      · simp only [WFn]
+        refine ⟨o, ho, by omega, rfl, a2, a3, ?_⟩
+        simp only [hnp, ↓reduceIte]; exact hr'
+      · rw [lsp_suffix ho hnp]
+        intro q hq; rcases List.mem_cons.mp hq with rfl | hq
+        · exact hsh
+        · exact a4 q hq
+      · simp [yieldSt, yield, isPrefix_of ho, hnp, norm, hk, tOp, tok, ← a7]
+    | idx =>
+      obtain ⟨hk, rfl⟩ := hcs
+      injection h with h; subst h
+      refine ⟨StOKn_imp (c := c) (st := ⟨_, none⟩) (newArgs_ok ⟨a2, a3, hr', ?_⟩ a1), ?_⟩
+      · intro q hq; rcases List.mem_cons.mp hq with rfl | hq
+        · exact hsh
+        · exact a4 q hq
+      · simp [yieldSt, yieldStack, yieldFrame, newArgs, opener, yieldSlots, norm, hk, tok, ← a7]
+    | call =>
+      obtain ⟨hk, hd, rfl⟩ := hcs
+      injection h with h; subst h
+      refine ⟨StOKn_imp (c := c) (st := ⟨_, none⟩) (newArgs_ok ⟨hd, a2, a3, hr', ?_⟩ a1), ?_⟩
+      · intro q hq; rcases List.mem_cons.mp hq with rfl | hq
+        · exact hsh
+        · exact a4 q hq
+      · simp [yieldSt, yieldStack, yieldFrame, newArgs, opener, yieldSlots, norm_lit hk, ← a7]
+  · cases hrw : reduceWhile c none S v with
+    | mk S' v' =>
+    obtain ⟨a1, a2, a3, _, _, _, a7⟩ :=
+      reduceWhile_spec c none S v hS hv hw hl (by intro ρ _; trivial) S' v' hrw
+    simp only [hrw] at h
+    obtain ⟨b1, b2⟩ := close_inv a1 a2 a3 h
+    exact ⟨StOKn_imp b1, by rw [b2, a7]⟩
+
+
+theorem resolveAmb_inv {c : Cfg} {st : St} (next : Option Token) (h : StOK c st) :
+    StOKn c (resolveAmb c st next) ∧ yieldSt c (resolveAmb c st next) = yieldSt c st := by
+  obtain ⟨S, cur⟩ := st
+  cases cur with
+  | some v => exact ⟨h, rfl⟩
+  | none =>
+    cases S with
+    | nil => exact ⟨h, rfl⟩
+    | cons f S =>
+      cases f with
+      | amb l sym o =>
+        obtain ⟨ho, hbp, hup, hlv, hlw, hlr, hls, hS⟩ := h
+        have key : ∀ ab : Bool,
+            StOKn c (if ab = true then ⟨.binop l sym o :: S, none⟩ else ⟨S, some (.unary sym o.alias l)⟩) ∧
+            yieldSt c (if ab = true then ⟨.binop l sym o :: S, none⟩ else ⟨S, some (.unary sym o.alias l)⟩) =
+              yieldSt c ⟨.amb l sym o :: S, none⟩ := by
+          intro ab
+          cases ab with
+          | true => exact ⟨⟨ho, hbp, hlv, hlw, hlr, hls, hS⟩, by simp [yieldSt, yieldStack, yieldFrame]⟩
+          | false =>
+            have hnp : ¬ o.up > 0 := by omega
+            refine ⟨⟨hS, by simp [isValue], ?_, rsr_suffix ho hnp, ?_⟩, ?_⟩
+            · simp only [WFn]
+              refine ⟨o, ho, by omega, rfl, hlv, hlw, ?_⟩
+              simp only [hnp, ↓reduceIte]; exact hlr
+            · rw [lsp_suffix ho hnp]; exact hls
+            · simp [yieldSt, yieldStack, yieldFrame, yield, isPrefix_of ho, hnp]
+        simp only [resolveAmb]
+        exact key _
+      | _ => exact ⟨h, rfl⟩
+
+theorem step_inv {c : Cfg} {st st' : St} {t : Token} (h : StOK c st) (hs : step c st t = .ok st') :
+    StOK c st' ∧ yieldSt c st' = yieldSt c st ++ [norm t] := by
+  obtain ⟨h1, h2⟩ := resolveAmb_inv (some t) h
+  simp only [step] at hs
+  generalize resolveAmb c st (some t) = st1 at h1 h2 hs
+  obtain ⟨S, cur⟩ := st1
+  cases cur with
+  | none =>
+    obtain ⟨a, b⟩ := stepOperand_inv (c := c) (S := S) h1 hs
+    exact ⟨StOKn_imp a, by rw [b, ← h2]; simp [yieldSt]⟩
+  | some v =>
+    obtain ⟨a, b⟩ := stepAfter_inv (c := c) (S := S) h1.1 h1.2 hs
+    exact ⟨a, by rw [b, ← h2]; simp [yieldSt]⟩
+
+theorem run_inv {c : Cfg} : ∀ (toks : List Token) (st st' : St), StOK c st → run c st toks = .ok st' →
+    StOK c st' ∧ yieldSt c st' = yieldSt c st ++ toks.map norm
+  | [], st, st', h, hr => by
+    simp [run] at hr; subst hr; exact ⟨h, by simp⟩
+  | t :: ts, st, st', h, hr => by
+    simp only [run] at hr
+    split at hr
+    · rename_i st1 hs
+      obtain ⟨a, b⟩ := step_inv h hs
+      obtain ⟨a', b'⟩ := run_inv ts st1 st' a hr
+      exact ⟨a', by rw [b', b]; simp⟩
+    · simp at hr
+
+/-- **C02, tree layer, soundness.**  Whatever the operator table and the token list: a successful
+parse returns a tree that satisfies the precedence predicate `WF` of that table and spells exactly
+the token list (kinds and values; positions are not part of a tree). -/
+theorem parse_sound (c : Cfg) (toks : List Token) (t : Ast) (h : parse c toks = .ok t) :
+    WF c t ∧ yield c t = toks.map norm := by
+  simp only [parse] at h
+  split at h
+  · rename_i st hr
+    obtain ⟨a, b⟩ := run_inv toks {} st (by simp [StOK, StackOK]) hr
+    obtain ⟨a1, b1⟩ := resolveAmb_inv none a
+    simp only [finish] at h
+    generalize resolveAmb c st none = st1 at a1 b1 h
+    obtain ⟨S, cur⟩ := st1
+    cases cur with
+    | none => simp at h
+    | some v =>
+      simp only at h
+      obtain ⟨hS, hv, hw, hr', hl⟩ := a1
+      cases hrw : reduceWhile c none S v with
+      | mk S' v' =>
+      obtain ⟨_, a2, a3, _, _, _, a7⟩ :=
+        reduceWhile_spec c none S v hS hv hw hl (by intro ρ _; trivial) S' v' hrw
+      rw [hrw] at h
+      cases S' with
+      | cons f S'' => simp at h
+      | nil =>
+        simp at h; subst h
+        refine ⟨⟨a2, a3⟩, ?_⟩
+        have : yieldSt c ⟨S, some v⟩ = yield c v' := by simpa [yieldSt, yieldStack] using a7.symm
+        rw [← this, b1, b]; simp [yieldSt, yieldStack]
+  · simp at h
+
 end Yaql.Props.C02
